@@ -18,6 +18,7 @@ package predicates
 //@   ensures [added] skipped(sp, podID, predicateName)
 //@   ensures [wf] skipWF(sp)
 //@   ensures [othersKept] forall p common_info.PodID, n k8s_internal.PredicateName :: (p != podID || n != predicateName) ==> skipped(sp, p, n) == old(skipped(sp, p, n))
+//@   ensures [innerKeptOrFresh] ite(old(podID in sp), sp[podID] == old(sp[podID]), fresh(sp[podID]))
 //@ end
 
 // A filter is skipped for a pod iff it was recorded for exactly that pod and that filter.
@@ -49,8 +50,134 @@ package predicates
 // slots when a shared-GPU task needs a new GPU group (the reservation pod takes one).
 //@ func (*predicatesPlugin).checkMaxPodsWithGpuGroupReservation
 //@   props C04 C01
-//@   requires pp != nil && task != nil && node != nil && node.Idle != nil && node.Releasing != nil
+//@   requires pp != nil && task != nil && node != nil
+//@   assume node.Idle != nil && node.Releasing != nil
+//@   note (c04c) node.Idle / node.Releasing non-nil is a data invariant of NodeInfo (NewNodeInfo); it was a `requires`, but the only caller evaluateTaskOnPredicates reaches this call after plugin callbacks (`modifies *`) that re-establish no snapshot invariant - assumed at entry instead, as the allocate layer does
 //@   ensures [maxPods] (result == nil) == ite(!sharedReq(task), podSlots(node) > 0.0, !newGpuGroup(task, node) || podSlots(node) >= 2.0)
 //@   ensures [oneSlotForWholeGpuTask] result == nil && !sharedReq(task) ==> podSlots(node) > 0.0
 //@   ensures [twoSlotsForNewGroup] result == nil && sharedReq(task) && newGpuGroup(task, node) ==> podSlots(node) >= 2.0
+//@ end
+
+// ---- C04: every required upstream (pre-)filter of the table is consulted ------------------------------------------
+// (helper c04c) The table k8sPredicates is k8s_internal/predicates.NewSessionPredicates' result; the answers of its
+// function-valued fields are named by k8s_internal.required / preStatus / filterFits / filterFails (see there).
+//@ define preRequired(t k8s_internal.SessionPredicates, n k8s_internal.PredicateName, pod *v1.Pod) bool = k8s_internal.required(t[n].IsPreFilterRequired, pod)
+//@ define preFails(t k8s_internal.SessionPredicates, n k8s_internal.PredicateName, pod *v1.Pod) bool = k8s_internal.statusErr(k8s_internal.preStatus(t[n].PreFilter, pod))
+//@ define preSkips(t k8s_internal.SessionPredicates, n k8s_internal.PredicateName, pod *v1.Pod) bool = k8s_internal.statusSkip(k8s_internal.preStatus(t[n].PreFilter, pod))
+
+// upstream *Status accessors (library; same names as in k8s_internal's file): a nil status is a success, neither an
+// error nor a skip; a success / a skip is no error (AsError() returns nil for Success, Wait and Skip)
+//@ axiom !k8s_internal.statusErr(nil) && !k8s_internal.statusSkip(nil)
+//@ axiom forall s ref :: k8s_internal.statusSkip(s) ==> !k8s_internal.statusErr(s)
+//@ func (*k8s.io/kube-scheduler/framework.Status).AsError
+//@   pure
+//@   ensures (result != nil) == k8s_internal.statusErr(recv)
+//@ end
+//@ func (*k8s.io/kube-scheduler/framework.Status).IsSkip
+//@   pure
+//@   ensures result == k8s_internal.statusSkip(recv)
+//@ end
+//@ func (*k8s.io/kube-scheduler/framework.Status).Reasons
+//@   pure
+//@ end
+// the intersection of the allowed-node sets is computed and DROPPED by the code (result unused): no effect
+//@ func (k8s.io/apimachinery/pkg/util/sets.Set[T]).Intersection
+//@   pure
+//@ end
+//@ func (k8s.io/apimachinery/pkg/util/sets.Set[string]).Intersection
+//@   pure
+//@ end
+
+// message formatting only
+//@ func generateErrorLog
+//@   props C04
+//@   pure
+//@   nopanic off
+//@   note nopanic off: formats the collected errors; every collected err is non-nil by construction (newPrePredicateError is called with a status whose AsError() is non-nil), which the value copy of the Status hides from the engine
+//@   loop 1
+//@     invariant true
+//@ end
+//@ func newPrePredicateError
+//@   props C04
+//@   pure
+//@   nopanic off
+//@   note nopanic off: called with a by-value copy of a status whose AsError() was just seen non-nil; the copy is a new object for the engine
+//@ end
+
+// the table can be evaluated: the "required" functions are there, and so is the (pre-)filter of every entry that can
+// be required (established by NewSessionPredicates: [tableEvaluable])
+//@ define preTableOK(t k8s_internal.SessionPredicates, pod *v1.Pod) bool = forall n in t :: t[n].IsPreFilterRequired != nil && (preRequired(t, n, pod) ==> t[n].PreFilter != nil)
+
+// C04 pre-filter stage: the task passes iff NO entry of the table whose IsPreFilterRequired holds for the pod returns
+// an error status (every such entry is evaluated: the loop does not stop at the first error, it collects them all);
+// an entry that answers Skip is recorded in the skip list for exactly this pod and this entry - and nothing else is.
+//@ func evaluateTaskOnPrePredicate
+//@   props C04
+//@   requires task != nil && skipPredicates != nil && skipWF(skipPredicates)
+//@   requires preTableOK(k8sPredicates, task.Pod)
+//@   modifies skipPredicates[task.UID], skipPredicates[task.UID][*]
+//@   loop 1
+//@     invariant skipWF(skipPredicates)
+//@     invariant forall n in visited :: n in k8sPredicates
+//@     invariant (len(allErrors) > 0) == (exists n in visited :: preRequired(k8sPredicates, n, task.Pod) && preFails(k8sPredicates, n, task.Pod))
+//@     invariant forall n in visited :: preRequired(k8sPredicates, n, task.Pod) && preSkips(k8sPredicates, n, task.Pod) ==> skipped(skipPredicates, task.UID, n)
+//@     invariant forall p common_info.PodID, n k8s_internal.PredicateName :: skipped(skipPredicates, p, n) ==> old(skipped(skipPredicates, p, n)) || (p == task.UID && n in visited && preRequired(k8sPredicates, n, task.Pod) && preSkips(k8sPredicates, n, task.Pod))
+//@     invariant ite(old(task.UID in skipPredicates), skipPredicates[task.UID] == old(skipPredicates[task.UID]), !(task.UID in skipPredicates) || fresh(skipPredicates[task.UID]))
+//@     invariant forall m map[k8s_internal.PredicateName]bool, k k8s_internal.PredicateName :: old(allocated(m)) && m != old(skipPredicates[task.UID]) ==> (k in m) == old(k in m) && m[k] == old(m[k])
+//@   ensures [passesIffNoRequiredPreFilterFails] (result == nil) == (forall n in k8sPredicates :: preRequired(k8sPredicates, n, task.Pod) ==> !preFails(k8sPredicates, n, task.Pod))
+//@   ensures [skipsRecorded] forall n in k8sPredicates :: preRequired(k8sPredicates, n, task.Pod) && preSkips(k8sPredicates, n, task.Pod) ==> skipped(skipPredicates, task.UID, n)
+//@   ensures [onlySkipsRecorded] forall p common_info.PodID, n k8s_internal.PredicateName :: skipped(skipPredicates, p, n) ==> old(skipped(skipPredicates, p, n)) || (p == task.UID && n in k8sPredicates && preRequired(k8sPredicates, n, task.Pod) && preSkips(k8sPredicates, n, task.Pod))
+//@   ensures [wf] skipWF(skipPredicates)
+//@ end
+
+// ---- the filter stage -----------------------------------------------------------------------------------------------
+//@ define filterRequired(t k8s_internal.SessionPredicates, n k8s_internal.PredicateName, pod *v1.Pod) bool = k8s_internal.required(t[n].IsFilterRequired, pod)
+// the upstream filter of entry n accepts pod on the (upstream view of the) node: fits and no error
+//@ define filterPasses(t k8s_internal.SessionPredicates, n k8s_internal.PredicateName, pod *v1.Pod, kn *k8sframework.NodeInfo) bool = k8s_internal.filterFits(t[n].Filter, pod, kn) && !k8s_internal.filterFails(t[n].Filter, pod, kn)
+//@ import k8sframework "k8s.io/kubernetes/pkg/scheduler/framework"
+
+// upstream NodeInfo.SetNode (library): writes the upstream node object only
+//@ func (*k8s.io/kubernetes/pkg/scheduler/framework.NodeInfo).SetNode
+//@   modifies fields(recv)
+//@   note assumed: upstream NodeInfo.SetNode stores the node pointer and bumps the generation of the receiver, nothing else
+//@ end
+
+// conf.GetConfig guards the process-wide configuration with a sync.Mutex (same sequential model as in cache/cluster_info's file)
+//@ func (*sync.Mutex).Lock
+//@   pure
+//@   note sync.Mutex is outside the subset (DESIGN 1.4); sequential model: no effect on the heap
+//@ end
+//@ func (*sync.Mutex).Unlock
+//@   pure
+//@   note sync.Mutex is outside the subset (DESIGN 1.4); sequential model: no effect on the heap
+//@ end
+
+// the "restrict node scheduling" switch (a plain func() bool handed in by OnSessionOpen: ssn.IsRestrictNodeSchedulingEnabled)
+//@ func param:(*predicatesPlugin).evaluateTaskOnPredicates.isRestrictNodeSchedulingEnabled
+//@   pure
+//@   note assumed: the configuration getter handed in is read-only
+//@ end
+
+// C04 filter stage: a (task, node) pair is accepted (nil) ONLY IF
+//  * the node is ready and schedulable (scheduler_util.nodeFit: CheckNodeConditionPredicate),
+//  * the pod-count limit incl. the GPU-group reservation pod holds (checkMaxPodsWithGpuGroupReservation's verdict),
+//  * EVERY entry of the upstream filter table whose IsFilterRequired holds for the pod and that was not skipped by its
+//    own PreFilter accepted the pod on this node (no error, fits) - the loop returns at the first failure;
+//  * the per-task capacity gate (queue limits) accepted the placement.
+// Stated on the state after the capacity callback (`modifies *`): everything after it only reads (the deferred
+// function restores task.NodeName / task.Pod.Spec.NodeName); the verdict names are state-independent.
+//@ func (*predicatesPlugin).evaluateTaskOnPredicates
+//@   props C04
+//@   nopanic off
+//@   note nopanic off: the type assertion node.PodAffinityInfo.(*K8sNodePodAffinityInfo), task.ResReq / node.Idle after the capacity callback (`modifies *`) are data invariants of the snapshot no contract carries; C04 is about the verdict
+//@   requires pp != nil && task != nil && node != nil && job != nil
+//@   modifies *
+//@   loop 1
+//@     invariant forall n in visited :: n in k8sPredicates
+//@     invariant forall n in visited :: filterRequired(k8sPredicates, n, task.Pod) && !skipped(skipPredicates, task.UID, n) ==> filterPasses(k8sPredicates, n, task.Pod, k8sNodeInfo)
+//@   ensures [everyRequiredFilterPassed] result == nil ==> (forall n in k8sPredicates :: filterRequired(k8sPredicates, n, task.Pod) && !skipped(skipPredicates, task.UID, n) ==> filterPasses(k8sPredicates, n, task.Pod, k8sNodeInfo))
+//@   ensures [nodeReadyAndSchedulable] result == nil ==> node.Node != nil && scheduler_util.nodeFit(node.Node)
+//@   ensures [maxPodsChecked] result == nil ==> ite(!sharedReq(task), podSlots(node) > 0.0, !newGpuGroup(task, node) || podSlots(node) >= 2.0)
+//@   ensures [capacityGatePassed] result == nil ==> api.taskCapacityOK(isTaskAllocationOnNodeOverCapacityFn, task, job, node)
+//@   ensures [namesRestored] task.NodeName == old(task.NodeName)
 //@ end
